@@ -17,6 +17,42 @@ from .. import exact, layout, sev, tlc
 from . import common, rys
 
 
+def run_hgp2e(ctx, prime, slip, shapes):
+    """The as-implemented Head-Gordon-Pople chain (HGP2e.tla) against the Rys definition on a rational grid."""
+    d = tlc.scratch("hgp")
+    body = """
+CONSTANT P
+E == INSTANCE Exact
+R == INSTANCE Rys
+Ax(a, b, c, d, A, B, C, D) == R!Derive2([a |-> E!FromRat(a), b |-> E!FromRat(b), c |-> E!FromRat(c), d |-> E!FromRat(d),
+                                         A |-> E!FromRat(A), B |-> E!FromRat(B), C |-> E!FromRat(C), D |-> E!FromRat(D)])
+Q1 == <<Ax(<<1,2>>, <<3,1>>, <<5,2>>, <<1,1>>, <<0,1>>, <<1,1>>, <<1,2>>, <<-1,1>>),
+        Ax(<<1,2>>, <<3,1>>, <<5,2>>, <<1,1>>, <<1,2>>, <<-1,1>>, <<2,1>>, <<0,1>>),
+        Ax(<<1,2>>, <<3,1>>, <<5,2>>, <<1,1>>, <<0,1>>, <<-3,2>>, <<-1,1>>, <<3,1>>)>>
+Q2 == <<Ax(<<7,2>>, <<1,3>>, <<1,1>>, <<4,1>>, <<1,1>>, <<1,1>>, <<0,1>>, <<2,1>>),
+        Ax(<<7,2>>, <<1,3>>, <<1,1>>, <<4,1>>, <<0,1>>, <<1,2>>, <<0,1>>, <<0,1>>),
+        Ax(<<7,2>>, <<1,3>>, <<1,1>>, <<4,1>>, <<-1,1>>, <<2,1>>, <<1,4>>, <<-1,2>>)>>
+MCQuartets == {Q1, Q2}
+MCShapes == {%s}
+VARIABLES r, shape, tabs, vert, et, hd, hb, pc, fresh
+INSTANCE HGP2e WITH Quartets <- MCQuartets, Shapes <- MCShapes, Slip <- "%s"
+""" % (", ".join("<<%d, %d, %d, %d>>" % s_ for s_ in shapes), slip)
+    tlc.write_module(d, "MC_HGP", body)
+    try:
+        res = tlc.run(d, "MC_HGP", "CONSTANT P = %d\nSPECIFICATION Spec\nINVARIANT VertOK\nINVARIANT TransferOK\nINVARIANT HorizDOK\n"
+                      "INVARIANT HorizBOK\nINVARIANT DoneOK\n" % prime, workers=8, timeout=3000)
+    finally:
+        tlc.cleanup(d)
+    if slip != "none":
+        if res.ok:
+            raise tlc.MachineryError("negative control: HGP2e with the y component in the z electron-transfer step still equals the definition")
+        ctx.extra.setdefault("negative_controls_detected_by_TLC", []).append("HGP2e with a wrong axis in the z electron transfer violates " + str(res.violated))
+        return
+    if not res.ok:
+        ctx.spec_violation("HGP2e", res)
+    ctx.add_tlc("HGP2e(P=%d): as-implemented vertical / electron-transfer / horizontal recursions = Rys definition, shapes %s" % (prime, shapes), res)
+
+
 def geometry(rng, kind):
     if kind == "coincident":
         c = cg.center(rng)
@@ -281,8 +317,11 @@ def run(pid, tier, seed, only_case=None):
                 sums |= {(e[0] + e[1]).numerator, (e[2] + e[3]).numerator, (e[0] + e[1] + e[2] + e[3]).numerator}
     primes = rys.pick_primes(sums)
     if fl:
-        r = common.run_models_parallel([lambda: rys.run_replayrys(ctx, fl, primes[0], 8),
-                                        lambda: rys.run_replayrys(ctx, fl, primes[1], 8)])
+        jobs = [lambda: rys.run_replayrys(ctx, fl, primes[0], 5), lambda: rys.run_replayrys(ctx, fl, primes[1], 5)]
+        if only_case is None:
+            shapes = [(1, 0, 1, 0), (1, 1, 0, 0), (0, 0, 1, 1), (1, 0, 1, 1)] + ([] if tier == "quick" else [(1, 1, 1, 0), (2, 0, 1, 0), (1, 0, 2, 0), (0, 1, 1, 1)])
+            jobs += [lambda: run_hgp2e(ctx, primes[0], "none", shapes), lambda: run_hgp2e(ctx, primes[0], "transfer", [(1, 0, 1, 1)])]
+        r = common.run_models_parallel(jobs)
         byid = {c["id"]: c for c in cases}
         for f in fl:
             byid[f["id"]]["tlc"] = {str(primes[0]): r[0][f["id"]], str(primes[1]): r[1][f["id"]]}
